@@ -353,3 +353,21 @@ func InstrDominates(a, b ssa.Instruction) bool {
 	}
 	return a.Block().Dominates(b.Block())
 }
+
+// EdgeFact returns the branch fact established by taking the CFG edge pred→succ when pred ends in an If.
+func EdgeFact(pred, succ *ssa.BasicBlock) (Fact, bool) {
+	if len(pred.Instrs) == 0 {
+		return Fact{}, false
+	}
+	iff, ok := pred.Instrs[len(pred.Instrs)-1].(*ssa.If)
+	if !ok || pred.Succs[0] == pred.Succs[1] {
+		return Fact{}, false
+	}
+	switch succ {
+	case pred.Succs[0]:
+		return norm(iff.Cond, true, pred), true
+	case pred.Succs[1]:
+		return norm(iff.Cond, false, pred), true
+	}
+	return Fact{}, false
+}
